@@ -92,8 +92,8 @@ Silent ==
        \/ (LGen /\ njobs' = njobs)
     /\ UNCHANGED i
 
-TNext == TReset \/ UNCHANGED kvars /\ (TEnqueue \/ TJobStart \/ TJobReject \/ TCompleteOk \/ TCompleteErr \/ TAbort
-            \/ TJobEnd \/ TMembers \/ TState \/ TEnd \/ Silent)
+TNext == TReset \/ (UNCHANGED kvars /\ (TEnqueue \/ TJobStart \/ TJobReject \/ TCompleteOk \/ TCompleteErr \/ TAbort
+            \/ TJobEnd \/ TMembers \/ TState \/ TEnd \/ Silent))
 
 Accepted ==
     IF TLCGet(1) = Len(Trace) THEN PrintT("TRACE-ACCEPTED")
